@@ -78,6 +78,19 @@ func init() {
 			return err == nil, fmt.Sprint(err)
 		})
 	}
+	probes["O83"] = func() (bool, string) {
+		return guard(func() (bool, string) {
+			sub, _ := ucfg.NewFrom(map[string]interface{}{"k": 1})
+			type src struct {
+				C *ucfg.Config `config:",inline"`
+				X int
+			}
+			c := ucfg.New()
+			err := c.Merge(src{C: sub, X: 3})
+			k, kerr := c.Int("k", -1)
+			return err != nil || kerr != nil || k != 1, fmt.Sprint(err, " ", kerr)
+		})
+	}
 	probes["O82"] = func() (bool, string) {
 		return guard(func() (bool, string) {
 			c, _ := ucfg.NewFrom(map[string]interface{}{"l": map[string]interface{}{"a": 1}})
